@@ -43,6 +43,7 @@
 #include "colvarbias.h"
 #include "colvarbias_restraint.h"
 #include "colvarbias_opes.h"
+#include "colvarproxy.h"
 #undef private
 #undef protected
 #include "vsim.h"
@@ -128,6 +129,18 @@ int main()
       if (!cv) { o << "noconfig\n"; continue; }
       colvarvalue x1(v3(), colvarvalue::type_3vector), x2(v3(), colvarvalue::type_3vector);
       o << H(cv->dist2(x1, x2)) << " " << vs_hex(cv->dist2_lgrad(x1, x2)) << " " << vs_hex(cv->dist2_rgrad(x1, x2)) << "\n";
+    } else if (cmd == "DVT") {
+      // distanceVec in a general (triclinic) cell given by its three vectors: DVT a b c x1 x2 -> dist2, lgrad, rgrad
+      cvm::rvector ca = v3(), cb = v3(), cc = v3();
+      S.eng.has_cell = true;
+      S.proxy->boundaries_type = colvarproxy_system::boundaries_pbc_triclinic;
+      S.proxy->unit_cell_x = ca; S.proxy->unit_cell_y = cb; S.proxy->unit_cell_z = cc;
+      S.proxy->update_pbc_lattice();
+      colvar *cv = get_cv("dv1", std::string("  distanceVec {\n    group1 { atomNumbers 1 }\n    group2 { atomNumbers 2 }\n  }\n"));
+      if (!cv) { o << "noconfig\n"; continue; }
+      colvarvalue x1(v3(), colvarvalue::type_3vector), x2(v3(), colvarvalue::type_3vector);
+      o << H(cv->dist2(x1, x2)) << " " << vs_hex(cv->dist2_lgrad(x1, x2)) << " " << vs_hex(cv->dist2_rgrad(x1, x2)) << "\n";
+      S.eng.has_cell = false; S.proxy->update_cell();
     } else if (cmd == "ISC") {
       colvarvalue x1(nf()), x2(nf()); double l = nf();
       o << vs_hex(colvarvalue::interpolate(x1, x2, l)) << "\n";
@@ -189,7 +202,7 @@ int main()
       std::string kind = a[p++];
       double wc = nf();
       int n = ni();
-      std::string comp = kind, extra;
+      std::string comp = kind, extra, full;
       char wbuf[128]; snprintf(wbuf, sizeof(wbuf), "    wrapAround %.17g\n", wc);
       std::string body;
       std::string const ref4 = "    atoms { atomNumbers 1 2 3 4 }\n    refPositions (1, 0, 0) (0, 1, 0) (0, 0, 1) (-1, -1, -1)\n";
@@ -209,6 +222,29 @@ int main()
       else if (kind == "distanceDir") body = "    group1 { atomNumbers 1 }\n    group2 { atomNumbers 2 }\n";
       else if (kind == "cartesian") body = "    atoms { atomNumbers 1 2 }\n";
       else if (kind == "distancePairs") body = "    group1 { atomNumbers 1 2 }\n    group2 { atomNumbers 3 4 }\n";
+      else if (kind == "mixDihedralDistance" || kind == "mixAngleDihedral" || kind == "mixPeriods" || kind == "dihedralDiff" ||
+               kind == "lcScalar" || kind == "lcVec3" || kind == "gspathCV" || kind == "gzpathCV" || kind == "aspathCV" || kind == "azpathCV") {
+        // multi-component variables and components that nest other components
+        std::string const dih = "    group1 { atomNumbers 1 }\n    group2 { atomNumbers 2 }\n    group3 { atomNumbers 3 }\n    group4 { atomNumbers 4 }\n";
+        std::string const dst = "    group1 { atomNumbers 1 }\n    group2 { atomNumbers 2 }\n";
+        std::string const dz = "    main { atomNumbers 1 }\n    ref { dummyAtom (0,0,0) }\n    axis (0,0,1)\n";
+        if (kind == "mixDihedralDistance")      // components are created in alphabetical keyword order: cvcs[0] is the (periodic) dihedral
+          full = "  dihedral {\n" + dih + wbuf + "  }\n  distance {\n" + dst + "  }\n";
+        else if (kind == "mixAngleDihedral")    // cvcs[0] is the (non-periodic) angle
+          full = "  angle {\n    group1 { atomNumbers 1 }\n    group2 { atomNumbers 2 }\n    group3 { atomNumbers 3 }\n  }\n  dihedral {\n" + dih + wbuf + "  }\n";
+        else if (kind == "mixPeriods")          // two periodic components with different periods
+          full = "  distanceZ {\n    name za\n" + dz + "    period 10.0\n" + wbuf + "  }\n  distanceZ {\n    name zb\n" + dz + "    period 20.0\n  }\n";
+        else if (kind == "dihedralDiff")        // difference of two periodic components: periodic
+          full = "  dihedral {\n    name da\n" + dih + wbuf + "  }\n  dihedral {\n    name db\n" + dih + "    componentCoeff -1.0\n  }\n";
+        else if (kind == "lcScalar")
+          full = "  linearCombination {\n    dihedral {\n  " + dih + "    }\n    distance {\n  " + dst + "      componentCoeff 2.0\n    }\n  }\n";
+        else if (kind == "lcVec3")
+          full = "  linearCombination {\n    distanceVec {\n      name va\n  " + dst + "    }\n    distanceVec {\n      name vb\n      group1 { atomNumbers 3 }\n      group2 { atomNumbers 4 }\n      componentCoeff -1.0\n    }\n  }\n";
+        else {
+          { std::ofstream pf("c18path.txt"); pf << "1.0\n2.0\n3.5\n"; }
+          full = "  " + kind + " {\n    distance {\n  " + dst + "    }\n    pathFile c18path.txt\n" + ((kind[0] == 'a') ? "    lambda 1.0\n" : "") + "  }\n";
+        }
+      }
       else if (kind.compare(0, 9, "scripted:") == 0) {
         // periodic scripted variable: "scripted:<period>"; the component is a plain distanceZ
         double P = num(kind.substr(9));
@@ -221,6 +257,7 @@ int main()
       char kb[256]; snprintf(kb, sizeof(kb), "cd %s %.17g", kind.c_str(), wc);
       std::string cvconf = extra + "  " + comp + " {\n" + body + "  }\n";
       if (kind == "dihedralSum") cvconf += "  " + comp + " {\n" + body + "  }\n";
+      if (full.size()) cvconf = full;
       colvar *cv = get_cv(kb, cvconf);
       if (!cv) { o << "noconfig\n"; continue; }
       auto rd = [&](colvarvalue const &proto) {
